@@ -560,6 +560,10 @@ enum Op {
     /// Finding F2 probe: a unit-struct component (no data) on marked entities, plain serialise in the case's
     /// format, load into a fresh world; result `unit kept <k> of <n>` (k = carriers of the unit component after loading).
     UnitRoundtrip,
+    /// A recursive save that FAILS half-way (the writer refuses after a few bytes) in a throw-away world of the same thread:
+    /// a marked entity referring to unmarked ones. Nothing of it may show in the worlds of the case (C20: nothing
+    /// observable depends on what happened in another world). Result `ok` (the save failed as arranged) / `saved?`.
+    ScratchFailedSave,
 }
 
 fn wn(w: usize) -> &'static str {
@@ -569,6 +573,7 @@ fn wn(w: usize) -> &'static str {
 fn show_op(op: &Op) -> String {
     match op {
         Op::UnitRoundtrip => "unit_roundtrip".to_string(),
+        Op::ScratchFailedSave => "scratch_failed_save".to_string(),
         Op::Cfg { uuid, ron, app } => format!("cfg {} {}", if *uuid { ["uuid", "uuidapp", "uuidreg"][*app as usize] } else if *app == 3 { "net" } else { "simple" }, if *ron { "ron" } else { "json" }),
         Op::Create(w, atomic) => format!("create {} {}", wn(*w), if *atomic { "atomic" } else { "now" }),
         Op::SetP(w, k, Some(v)) => format!("setp {} @{} {}", wn(*w), k, v),
@@ -620,6 +625,7 @@ fn parse_op(line: &str) -> Option<Op> {
     let ts: Vec<&str> = l.split_whitespace().collect();
     Some(match ts.as_slice() {
         ["unit_roundtrip"] => Op::UnitRoundtrip,
+        ["scratch_failed_save"] => Op::ScratchFailedSave,
         ["cfg", m, f] => Op::Cfg {
             uuid: match *m { "simple" | "net" => false, "uuid" | "uuidapp" | "uuidreg" => true, _ => return None },
             app: match *m { "uuidapp" => 1, "uuidreg" => 2, "net" => 3, _ => 0 },
@@ -853,6 +859,39 @@ impl<M: MK> Exec<M> {
         match op {
             Op::Cfg { .. } => harness_bug("cfg reached the executor".into()),
             Op::UnitRoundtrip => harness_bug("unit_roundtrip reached the executor".into()),
+            Op::ScratchFailedSave => {
+                struct Failing(usize);
+                impl std::io::Write for Failing {
+                    fn write(&mut self, b: &[u8]) -> std::io::Result<usize> {
+                        if self.0 < b.len() { return Err(std::io::Error::new(std::io::ErrorKind::Other, "disk full")); }
+                        self.0 -= b.len();
+                        Ok(b.len())
+                    }
+                    fn flush(&mut self) -> std::io::Result<()> { Ok(()) }
+                }
+                let mut w = new_world::<M>();
+                let es: Vec<Entity> = (0..4).map(|_| w.create_entity().build()).collect();
+                {
+                    let mut r = w.write_storage::<R>();
+                    let _ = r.insert(es[0], R { a: es[1], b: es[2] });
+                    let _ = r.insert(es[1], R { a: es[3], b: es[0] });
+                    let mut alloc = w.write_resource::<M::Allocator>();
+                    let mut st = w.write_storage::<M>();
+                    let _ = alloc.mark(es[0], &mut st);
+                }
+                let failed = {
+                    let ents = w.entities();
+                    let p = w.read_storage::<P>();
+                    let r = w.read_storage::<R>();
+                    let e = w.read_storage::<E>();
+                    let mut markers = w.write_storage::<M>();
+                    let mut alloc = w.write_resource::<M::Allocator>();
+                    let mut ser = serde_json::Serializer::new(Failing(24));
+                    SerializeComponents::<SerErr, M>::serialize_recursive(&(&p, &r, &e), &ents, &mut markers, &mut *alloc, &mut ser).is_err()
+                };
+                drop(w);
+                if failed { "ok".into() } else { "saved?".into() }
+            }
             Op::Create(w, atomic) => {
                 let e = if *atomic { self.worlds[*w].entities().create() } else { self.worlds[*w].create_entity().build() };
                 self.logs[*w].push(e);
@@ -1365,7 +1404,11 @@ fn gen_hist(rng: &mut Rng, maxlen: usize, h: &mut Harness, out: &mut String, det
                 11 if det && rng.chance(1, 2) => { pending.push_back(Op::AllocMaintain(w)); pending.push_back(Op::Mark(w, k)); Op::AllocReset(w) }
                 11 => Op::AllocMaintain(w),
                 12 => Op::Serialize(w, false),
-                13 => { if uuid && !rng.chance(1, 12) { w = 0; } Op::Serialize(w, true) }
+                13 => {
+                    if uuid && !rng.chance(1, 12) { w = 0; }
+                    // (a sixth of the recursive saves right behind a failed recursive save in a throw-away world)
+                    if rng.chance(1, 6) { pending.push_back(Op::Serialize(w, true)); Op::ScratchFailedSave } else { Op::Serialize(w, true) }
+                }
                 14 => {
                     // repeated loads of the same slot are the interesting ones
                     if let (Some(prev), true) = (&last_load, rng.chance(3, 10)) { prev.clone() }
@@ -1388,9 +1431,9 @@ fn gen_hist(rng: &mut Rng, maxlen: usize, h: &mut Harness, out: &mut String, det
             Op::Create(w, _) | Op::SetP(w, ..) | Op::SetR(w, ..) | Op::SetE(w, ..) | Op::Mark(w, _) | Op::MarkLazy(w, _) | Op::DelNow(w, _)
             | Op::DelBatch(w, _) | Op::DelAtomic(w, _) | Op::Maintain(w) | Op::AllocMaintain(w) | Op::AllocReset(w) | Op::Serialize(w, _)
             | Op::Deserialize(w, _) | Op::Load(w, _) | Op::Roundtrip(w, _) | Op::Dump(w) => *w,
-            Op::Cfg { .. } | Op::UnitRoundtrip => 0,
+            Op::Cfg { .. } | Op::UnitRoundtrip | Op::ScratchFailedSave => 0,
         };
-        let quiet = matches!(op, Op::Serialize(_, false) | Op::Roundtrip(..) | Op::Cfg { .. } | Op::Dump(_));
+        let quiet = matches!(op, Op::Serialize(_, false) | Op::Roundtrip(..) | Op::Cfg { .. } | Op::Dump(_) | Op::ScratchFailedSave);
         if !quiet && res != "skip" {
             h.step(&Op::Dump(w), out);
         }
